@@ -273,6 +273,220 @@ pub struct K4 {
     pub exact: [C0; 64],
 }
 
+// ---- family P/V: one distinct leaf per dependency-collection site of the derive -------------
+// (variant kinds x enum representations x inline / flatten / skip / as / type)
+
+#[derive(TS)]
+#[ts(export_to = p(29), rename = n(29))]
+pub struct P0 {
+    pub v: i32,
+}
+
+#[derive(TS)]
+#[ts(export_to = p(30), rename = n(30))]
+pub struct P1 {
+    pub v: i32,
+}
+
+#[derive(TS)]
+#[ts(export_to = p(31), rename = n(31))]
+pub struct P2 {
+    pub v: i32,
+}
+
+#[derive(TS)]
+#[ts(export_to = p(32), rename = n(32))]
+pub struct P3 {
+    pub v: i32,
+}
+
+#[derive(TS)]
+#[ts(export_to = p(33), rename = n(33))]
+pub struct P4 {
+    pub v: i32,
+}
+
+#[derive(TS)]
+#[ts(export_to = p(34), rename = n(34))]
+pub struct P5 {
+    pub v: i32,
+}
+
+#[derive(TS)]
+#[ts(export_to = p(35), rename = n(35))]
+pub struct P6 {
+    pub v: i32,
+}
+
+#[derive(TS)]
+#[ts(export_to = p(36), rename = n(36))]
+pub struct P7 {
+    pub v: i32,
+}
+
+#[derive(TS)]
+#[ts(export_to = p(37), rename = n(37))]
+pub struct P8 {
+    pub v: i32,
+}
+
+#[derive(TS)]
+#[ts(export_to = p(38), rename = n(38))]
+pub struct P9 {
+    pub v: i32,
+}
+
+#[derive(TS)]
+#[ts(export_to = p(39), rename = n(39))]
+pub struct P10 {
+    pub v: i32,
+}
+
+#[derive(TS)]
+#[ts(export_to = p(40), rename = n(40))]
+pub struct P11 {
+    pub v: i32,
+}
+
+#[derive(TS)]
+#[ts(export_to = p(41), rename = n(41))]
+pub struct P12 {
+    pub v: i32,
+}
+
+#[derive(TS)]
+#[ts(export_to = p(42), rename = n(42))]
+pub struct P13 {
+    pub v: i32,
+}
+
+#[derive(TS)]
+#[ts(export_to = p(43), rename = n(43))]
+pub struct P14 {
+    pub v: i32,
+}
+
+#[derive(TS)]
+#[ts(export_to = p(44), rename = n(44))]
+pub struct P15 {
+    pub v: i32,
+}
+
+#[derive(TS)]
+#[ts(export_to = p(45), rename = n(45))]
+pub struct P16 {
+    pub v: i32,
+}
+
+#[derive(TS)]
+#[ts(export_to = p(46), rename = n(46))]
+pub struct P17 {
+    pub v: i32,
+}
+
+#[derive(TS)]
+#[ts(export_to = p(47), rename = n(47))]
+pub struct P18 {
+    pub v: i32,
+}
+
+#[derive(TS)]
+#[ts(export_to = p(48), rename = n(48))]
+pub struct P19 {
+    pub v: i32,
+}
+
+#[derive(TS)]
+#[ts(export_to = p(49), rename = n(49))]
+pub struct P4w {
+    pub inner: P4,
+}
+
+#[derive(TS)]
+#[ts(export_to = p(50), rename = n(50))]
+pub struct P9w {
+    pub k: P9,
+}
+
+#[derive(TS)]
+#[ts(export_to = p(51), rename = n(51))]
+pub struct P14w {
+    pub z: P14,
+}
+
+#[derive(TS)]
+#[ts(export_to = p(52), rename = n(52))]
+pub struct P15w {
+    pub q: P15,
+}
+
+#[derive(TS)]
+#[ts(export_to = p(53), rename = n(53))]
+pub struct P17w {
+    pub r: P17,
+}
+
+#[derive(TS)]
+#[ts(export_to = p(54), rename = n(54))]
+pub struct P19w {
+    pub s: P19,
+}
+
+#[derive(TS)]
+#[ts(export_to = p(55), rename = n(55))]
+pub enum V0 {
+    A(P0),
+    B(P1, Vec<P2>),
+    C {
+        x: P3,
+        #[ts(inline)]
+        y: P4w,
+    },
+    #[ts(skip)]
+    D(P5),
+    E(#[ts(type = "string")] P6),
+    F(#[ts(as = "P7")] i32),
+}
+
+#[derive(TS)]
+#[ts(export_to = p(56), rename = n(56), tag = "t")]
+pub enum V1 {
+    A { x: P8 },
+    B(P9w),
+    C,
+}
+
+#[derive(TS)]
+#[ts(export_to = p(57), rename = n(57), untagged)]
+pub enum V2 {
+    A(P10),
+    B { y: Option<P11> },
+}
+
+#[derive(TS)]
+#[ts(export_to = p(58), rename = n(58), tag = "t", content = "c")]
+pub enum V3 {
+    A(P12, P13),
+    B {
+        #[ts(flatten)]
+        f: P14w,
+    },
+}
+
+#[derive(TS)]
+#[ts(export_to = p(59), rename = n(59))]
+pub struct V4(#[ts(inline)] pub P15w);
+
+#[derive(TS)]
+#[ts(export_to = p(60), rename = n(60))]
+pub struct V5(pub P16, #[ts(inline)] pub P17w, #[ts(skip)] pub P18);
+
+#[derive(TS)]
+#[ts(export_to = p(61), rename = n(61), as = "P19w")]
+pub struct V6 {
+    pub ignored: P5,
+}
+
 // ---- family L: literal attributes, as in ordinary user code -------------------------------
 
 #[derive(TS)]
@@ -305,7 +519,7 @@ pub struct L3 {
 pub struct L4(pub String);
 
 /// Number of definitions that read the table (`p(i)` / `n(i)`).
-pub const DER_DEFS: usize = 29;
+pub const DER_DEFS: usize = 62;
 
 #[derive(Clone, Copy, Debug)]
 pub enum Place {
@@ -368,7 +582,40 @@ pub const K2_G_A3: usize = 35;
 pub const K3_: usize = 36;
 pub const K4_: usize = 37;
 pub const K5_VEC_D0: usize = 38;
-pub const DER_HANDLES: usize = 39;
+pub const P0_: usize = 39;
+pub const P1_: usize = 40;
+pub const P2_: usize = 41;
+pub const P3_: usize = 42;
+pub const P4_: usize = 43;
+pub const P5_: usize = 44;
+pub const P6_: usize = 45;
+pub const P7_: usize = 46;
+pub const P8_: usize = 47;
+pub const P9_: usize = 48;
+pub const P10_: usize = 49;
+pub const P11_: usize = 50;
+pub const P12_: usize = 51;
+pub const P13_: usize = 52;
+pub const P14_: usize = 53;
+pub const P15_: usize = 54;
+pub const P16_: usize = 55;
+pub const P17_: usize = 56;
+pub const P18_: usize = 57;
+pub const P19_: usize = 58;
+pub const P4W_: usize = 59;
+pub const P9W_: usize = 60;
+pub const P14W_: usize = 61;
+pub const P15W_: usize = 62;
+pub const P17W_: usize = 63;
+pub const P19W_: usize = 64;
+pub const V0_: usize = 65;
+pub const V1_: usize = 66;
+pub const V2_: usize = 67;
+pub const V3_: usize = 68;
+pub const V4_: usize = 69;
+pub const V5_: usize = 70;
+pub const V6_: usize = 71;
+pub const DER_HANDLES: usize = 72;
 
 use Place::{Lit, RenameOnly, Table as Tb};
 
@@ -442,6 +689,39 @@ pub const MANIFEST: [DerInfo; DER_HANDLES] = [
     DerInfo { label: "K4", place: Tb(28), import_refs: &[A3_, F1_, K5_VEC_D0, D0_, A1_, C0_], reach_refs: &[A3_, F1_, K5_VEC_D0, D0_, A1_, C0_] },
     // type K5<T> = { rows: T };
     DerInfo { label: "K5<Vec<D0>>", place: Tb(27), import_refs: &[], reach_refs: &[D0_] },
+    DerInfo { label: "P0", place: Tb(29), import_refs: &[], reach_refs: &[] },
+    DerInfo { label: "P1", place: Tb(30), import_refs: &[], reach_refs: &[] },
+    DerInfo { label: "P2", place: Tb(31), import_refs: &[], reach_refs: &[] },
+    DerInfo { label: "P3", place: Tb(32), import_refs: &[], reach_refs: &[] },
+    DerInfo { label: "P4", place: Tb(33), import_refs: &[], reach_refs: &[] },
+    DerInfo { label: "P5", place: Tb(34), import_refs: &[], reach_refs: &[] },
+    DerInfo { label: "P6", place: Tb(35), import_refs: &[], reach_refs: &[] },
+    DerInfo { label: "P7", place: Tb(36), import_refs: &[], reach_refs: &[] },
+    DerInfo { label: "P8", place: Tb(37), import_refs: &[], reach_refs: &[] },
+    DerInfo { label: "P9", place: Tb(38), import_refs: &[], reach_refs: &[] },
+    DerInfo { label: "P10", place: Tb(39), import_refs: &[], reach_refs: &[] },
+    DerInfo { label: "P11", place: Tb(40), import_refs: &[], reach_refs: &[] },
+    DerInfo { label: "P12", place: Tb(41), import_refs: &[], reach_refs: &[] },
+    DerInfo { label: "P13", place: Tb(42), import_refs: &[], reach_refs: &[] },
+    DerInfo { label: "P14", place: Tb(43), import_refs: &[], reach_refs: &[] },
+    DerInfo { label: "P15", place: Tb(44), import_refs: &[], reach_refs: &[] },
+    DerInfo { label: "P16", place: Tb(45), import_refs: &[], reach_refs: &[] },
+    DerInfo { label: "P17", place: Tb(46), import_refs: &[], reach_refs: &[] },
+    DerInfo { label: "P18", place: Tb(47), import_refs: &[], reach_refs: &[] },
+    DerInfo { label: "P19", place: Tb(48), import_refs: &[], reach_refs: &[] },
+    DerInfo { label: "P4w", place: Tb(49), import_refs: &[P4_], reach_refs: &[P4_] },
+    DerInfo { label: "P9w", place: Tb(50), import_refs: &[P9_], reach_refs: &[P9_] },
+    DerInfo { label: "P14w", place: Tb(51), import_refs: &[P14_], reach_refs: &[P14_] },
+    DerInfo { label: "P15w", place: Tb(52), import_refs: &[P15_], reach_refs: &[P15_] },
+    DerInfo { label: "P17w", place: Tb(53), import_refs: &[P17_], reach_refs: &[P17_] },
+    DerInfo { label: "P19w", place: Tb(54), import_refs: &[P19_], reach_refs: &[P19_] },
+    DerInfo { label: "V0", place: Tb(55), import_refs: &[P0_, P1_, P2_, P3_, P4_, P7_], reach_refs: &[P0_, P1_, P2_, P3_, P4_, P7_] },
+    DerInfo { label: "V1", place: Tb(56), import_refs: &[P8_, P9W_], reach_refs: &[P8_, P9W_] },
+    DerInfo { label: "V2", place: Tb(57), import_refs: &[P10_, P11_], reach_refs: &[P10_, P11_] },
+    DerInfo { label: "V3", place: Tb(58), import_refs: &[P12_, P13_, P14_], reach_refs: &[P12_, P13_, P14_] },
+    DerInfo { label: "V4", place: Tb(59), import_refs: &[P15_], reach_refs: &[P15_] },
+    DerInfo { label: "V5", place: Tb(60), import_refs: &[P16_, P17_], reach_refs: &[P16_, P17_] },
+    DerInfo { label: "V6", place: Tb(61), import_refs: &[P19_], reach_refs: &[P19_] },
 ];
 
 pub fn der_handle(h: usize) -> Handle {
@@ -486,6 +766,39 @@ pub fn der_handle(h: usize) -> Handle {
         K3_ => handle::<K3>(l),
         K4_ => handle::<K4>(l),
         K5_VEC_D0 => handle::<K5<Vec<D0>>>(l),
+        P0_ => handle::<P0>(l),
+        P1_ => handle::<P1>(l),
+        P2_ => handle::<P2>(l),
+        P3_ => handle::<P3>(l),
+        P4_ => handle::<P4>(l),
+        P5_ => handle::<P5>(l),
+        P6_ => handle::<P6>(l),
+        P7_ => handle::<P7>(l),
+        P8_ => handle::<P8>(l),
+        P9_ => handle::<P9>(l),
+        P10_ => handle::<P10>(l),
+        P11_ => handle::<P11>(l),
+        P12_ => handle::<P12>(l),
+        P13_ => handle::<P13>(l),
+        P14_ => handle::<P14>(l),
+        P15_ => handle::<P15>(l),
+        P16_ => handle::<P16>(l),
+        P17_ => handle::<P17>(l),
+        P18_ => handle::<P18>(l),
+        P19_ => handle::<P19>(l),
+        P4W_ => handle::<P4w>(l),
+        P9W_ => handle::<P9w>(l),
+        P14W_ => handle::<P14w>(l),
+        P15W_ => handle::<P15w>(l),
+        P17W_ => handle::<P17w>(l),
+        P19W_ => handle::<P19w>(l),
+        V0_ => handle::<V0>(l),
+        V1_ => handle::<V1>(l),
+        V2_ => handle::<V2>(l),
+        V3_ => handle::<V3>(l),
+        V4_ => handle::<V4>(l),
+        V5_ => handle::<V5>(l),
+        V6_ => handle::<V6>(l),
         _ => panic!("no such derived handle {h}"),
     }
 }
